@@ -22,6 +22,43 @@ static std::vector<std::vector<int>> int_lists(Args& a)
 	return r;
 }
 
+// one double element of a Lists_Equal request: a hex float / nan / inf / -inf, or a negative zero
+// produced the way real code produces it (the operands are volatile so nothing is folded away)
+static double dbl_elem(Args& a)
+{
+	if(a.more() && a.t[a.pos].size() > 2 && a.t[a.pos][0] == 'z' && a.t[a.pos][1] == '.')
+	{
+		const std::string s = a.tok();
+		volatile double q = -0.25, r = -0.4, u = -1e-200, w = 1e-200;
+		if(s == "z.lit")
+			return -0.0;
+		if(s == "z.ceil")
+			return std::ceil(q);
+		if(s == "z.round")
+			return std::round(r);
+		if(s == "z.under")
+			return u * w;
+		throw BadArgs("zero kind: " + s);
+	}
+	return a.dbl();
+}
+static std::vector<double> dbl_elems(Args& a)
+{
+	size_t n = a.u64();
+	std::vector<double> v(n);
+	for(auto& x : v)
+		x = dbl_elem(a);
+	return v;
+}
+static std::vector<std::vector<double>> dbl_lists(Args& a)
+{
+	size_t n = a.u64();
+	std::vector<std::vector<double>> r(n);
+	for(auto& l : r)
+		l = dbl_elems(a);
+	return r;
+}
+
 std::string handle(const std::string& op, Args& a)
 {
 	if(op == "c19.workload")
@@ -74,6 +111,18 @@ std::string handle(const std::string& op, Args& a)
 	if(op == "c19.listseq2")   // nested overload
 	{
 		auto x = int_lists(a), y = int_lists(a);
+		a.end();
+		return run([&](Out& o) { o << (int) Lists_Equal(x, y); });
+	}
+	if(op == "c19.listseqd")   // element type double: signed zeros, NaN, infinities
+	{
+		auto x = dbl_elems(a), y = dbl_elems(a);
+		a.end();
+		return run([&](Out& o) { o << (int) Lists_Equal(x, y); });
+	}
+	if(op == "c19.listseqd2")	// nested overload over double
+	{
+		auto x = dbl_lists(a), y = dbl_lists(a);
 		a.end();
 		return run([&](Out& o) { o << (int) Lists_Equal(x, y); });
 	}
